@@ -236,6 +236,31 @@ Theorem C12_builtins :
 Proof. vm_compute. repeat split; reflexivity. Qed.
 Print Assumptions C12_builtins.
 
+(* ... and every combination of the documented flags of the seven built-in names (plus common
+   flags the definitions say nothing about) lies INSIDE the specification's scanner, so
+   C12_flags_exact applies to each of these 256 command lines *)
+Fixpoint subsets {A} (l : list (list A)) : list (list A) :=
+  match l with
+  | [] => [[]]
+  | x :: r => let s := subsets r in s ++ map (fun y => x ++ y) s
+  end.
+Definition documented : list (string * list (list string)) :=
+  [ ("gcc", [["-fopenmp"]; ["-DA"]; ["-I"; "inc"]; ["-Wall"]; ["-O2"]; ["-c"; "a.c"]]);
+    ("g++", [["-fopenmp"]; ["-DA=1"]; ["-include"; "f.h"]; ["-std=c++17"]; ["-g"]]);
+    ("clang", [["-fopenmp"]; ["-fsycl-is-device"]; ["-DA"]; ["-isystem"; "inc"]]);
+    ("clang++", [["-fopenmp"]; ["-fsycl-is-device"]; ["-isystem"; "inc"]; ["-o"; "a.o"]]);
+    ("icx", [["-fopenmp"]; ["-fsycl"]; ["-fsycl-targets=spir64_gen,spir64_x86_64"]; ["-fsycl-targets=nvptx64-nvidia-cuda"]; ["-DA"]]);
+    ("icpx", [["-fopenmp"]; ["-fsycl"]; ["-fsycl-targets"; "spir64"]; ["-fsycl-targets=spir64_fpga,bogus"]; ["-DA"]]);
+    ("nvcc", [["-fopenmp"]; ["--gpu-architecture=sm_80"]; ["--gpu-code=sm_90,compute_75"];
+              ["-gencode"; "arch=compute_89,code=sm_89"]; ["-DA"]; ["--expt-relaxed-constexpr"]]) ].
+Definition in_S (name : string) (argv : list string) : bool :=
+  match spec_cmd builtin_table (name, argv) with (SOk _, Some _) => true | _ => false end.
+Theorem C12_builtins_documented_in_S :
+  forallb (fun nd => forallb (in_S (fst nd)) (subsets (snd nd))) documented = true /\
+  List.length (flat_map (fun nd => subsets (snd nd)) documented) = 256.
+Proof. vm_compute. split; reflexivity. Qed.
+Print Assumptions C12_builtins_documented_in_S.
+
 (* non-vacuity: a user compiler with all four action kinds, reached through a
    two-step alias, with implicit options, three passes and two modes *)
 Definition C12_example_compiler : compiler :=
